@@ -11,7 +11,7 @@ import KavaVerif.Model.Authz
   only a principal may succeed; a message that does not succeed changes nothing; a record-keyed handler
   touches only the signer's records and pays out at most what is recorded.
 
-  line: cmd kind signer pre… "=>" cls changed err post… changedUsers
+  line: cmd kind signer principalProbeOk pre… "=>" cls changed err post… changedUsers
 -/
 namespace Drv.C16
 open KV.Authz KV.Gen.C16
@@ -26,6 +26,7 @@ def natList (s : String) (sep : String := ",") : List Nat := (strs s sep).map na
 structure Obs where
   kind : String
   signer : Nat
+  probe : Bool   -- the same message succeeded for the principal in this state
   pre : List String
   cls : String
   changed : Bool
@@ -39,12 +40,12 @@ def splitArrow : List String → List String → Option (List String × List Str
 
 def parse (fs : List String) : Option Obs :=
   match fs with
-  | kind :: signer :: rest =>
+  | kind :: signer :: probe :: rest =>
     match splitArrow [] rest with
     | some (pre, cls :: changed :: err :: tail) =>
       match tail.reverse with
       | chg :: postRev =>
-        some { kind := kind, signer := nat9 signer, pre := pre, cls := cls, changed := changed == "1", err := err,
+        some { kind := kind, signer := nat9 signer, probe := probe == "1", pre := pre, cls := cls, changed := changed == "1", err := err,
                post := postRev.reverse, chg := natList chg }
       | [] => none
     | _ => none
@@ -59,10 +60,11 @@ def failedUnchanged (o : Obs) : String :=
   if o.cls != "ok" && o.changed then predfail "C16_failed_changes_nothing" s!"{o.kind} state-changed-by-failed-message"
   else "ok"
 
-/-- when the model says the gating guard is what rejects, the implementation's registered error must be the
-    guard's (so the rejection is the guard's doing, not an incidental later check) -/
+/-- when the model says the gating guard is what rejects — in a state where the same message succeeds for the
+    principal, so every signer-independent check passes — the implementation's registered error must be the
+    guard's (the rejection is the guard's doing, not an incidental other check) -/
 def guardErr (guardRejects : Bool) (gd : Guard) (o : Obs) : String :=
-  if guardRejects && gd.rejectCode != "" && o.cls == "err" && o.err != gd.rejectCode then
+  if o.probe && guardRejects && gd.rejectCode != "" && o.cls == "err" && o.err != gd.rejectCode then
     mismatch "guard-error" gd.rejectCode o.err
   else "ok"
 
@@ -297,6 +299,7 @@ def cdpWithdraw (o : Obs) : String :=
   let guardRejects := cdpFound && dep < 0
   pick [expectEq "result" res.cls o.cls,
          expectEq "paid" (toString (if res.isOk then x else 0)) (g o.post 0),
+         guardErr (!cdpFound) gCdpWdCdp o,
          guardErr guardRejects gCdpWdDep o,
          guardErr (cdpFound && dep ≥ 0 && x > dep) gCdpWdCap o,
          (if implOk && !subsetOf o.chg touched then mismatch "touched" (showInts (touched.map Int.ofNat)) (showInts (o.chg.map Int.ofNat)) else "ok"),
